@@ -60,7 +60,7 @@ func c01Lengths(thorough bool) []int {
 
 func runC01(r *engine.Run) {
 	r.Rule = "E1 product of spec-valid frame values built simultaneously as a specification value (independent serialiser mc/spec/frame.go) and as a library value: data frames MType{2..5} x 16 FCtrl flag combinations x FOptsLen 0..15 x FOpts form{commands,opaque} x FPort{absent,0,1,223,224,255} x FRMPayload length (quick: 11 lengths; thorough: 0..242) x FRMPayload form (port 0: also a MAC-command list) x FCnt(5) x DevAddr(3), restricted to spec-valid combinations; Major 0..3 x MType 0..7; join-request / rejoin 0,1,2 over EUI/nonce/NetID alphabets; join-accept: all 256 DLSettings x RXDelay 0..15 x CFList kinds, and value alphabets x CFList contents (4^5 channel lists, all mask lists of length 0..6 over 4 masks); proprietary lengths 0..250; base64 text form. Obligations per case: encode succeeds, bytes equal the specification serialisation, decode yields an equal frame (FCnt mod 2^16, FCtrl bit 4 as ClassB||FPending, FOpts/FRMPayload as bytes and as decoded command lists, CFList masks up to trailing all-zero masks). Non-trivial: encode succeeded and all three comparisons ran; distinct by construction."
-	frameHistory(r, 3)
+	frameHistory(r, 2)
 	r.Assume("FPort=0 together with non-empty FOpts is excluded from the generator (not spec-clear; C08 handles what the decoder accepts)")
 	r.Assume("opaque bytes are position-distinct fillers: the codec copies them without inspection (data independence, confirmed by the per-position sweeps in C08)")
 
